@@ -27,6 +27,16 @@ Dict key / value members and for hash-map variables; for the latter only
 values are judged (what either side wrote must be read back by both), not
 the layout of the cell.
 
+Program classes with two and three HashMap objects (the variables
+distributed over them in different numbers, the declarations of the maps
+interleaved, defaults, plain and byte-order-prefixed formats) and classes
+with a Dict (key B, value Q, keys 1 and 2 - the keys the variables of every
+HashMap have, too) next to the HashMap(s) go through the same search: the
+state is the tuple of all variables' cells (and the Dict's entries), the
+reference is the same - independent cells -, so a write to a variable of one
+map that shows in a variable of another map (or in the Dict, or a Dict
+operation that shows in a variable) is an edge that differs from the model.
+
 A second search runs several program instances in one process (two and three
 instances of one program class, two classes built from the same declaration,
 an instance that was close()d next to a later one, an instance created after
@@ -50,7 +60,13 @@ PROP = "C09"
 LEVEL = "model_checking"
 RULE = ("configurations = hash-map variable sets (formats I i Q q B h and, "
         "judged on values only, >H >I !h <I >q <Q !B >i <h; defaults 0 5 -1, "
-        "1-3 variables) and Dict declarations (packed Structure member lists "
+        "1-3 variables; classes with two and three HashMaps, 2-5 variables "
+        "distributed 1+1 (all format pairs), 1+2, 2+1, 2+2, 3+1, 1+3, "
+        "1+1+1, 2+1+1 ... with interleaved declarations; classes with a "
+        "Dict(B -> Q) before / after one or two HashMaps, the Dict's "
+        "entries being part of the state and Python / program writes, "
+        "deletes and lookups of its keys part of the alphabet) "
+        "and Dict declarations (packed Structure member lists "
         "over sizes 1/2/4/8 for key and value, plus declarations whose "
         "members carry their own byte order, size 2/31, lru on/off); per "
         "configuration a breadth-first search over operation sequences "
@@ -226,10 +242,27 @@ def hv_values(fmt):
     return out
 
 
+DK = (1, 2)             # keys of the Dict next to hash maps (the keys of
+                        # the first two variables of every HashMap, too)
+
+
+def hv_maps(cfg):
+    """for every variable the number of the HashMap it is declared in"""
+    return tuple(cfg.get("maps") or (0,) * len(cfg["vars"]))
+
+
 class HashVarCase:
-    """class with one HashMap and variables v0..; program:
+    """class with HashMaps and variables v0..; program:
     sel 1+j: v_j = packet value; sel 8+j: v_j = packet value + 1;
-    sel 16+4j+k: v_j = v_k; always: every variable is copied to the packet.
+    sel 16+5j+k: v_j = v_k; always: every variable is copied to the packet.
+
+    cfg["vars"]: (format, default) per variable; cfg["maps"] (optional): for
+    every variable the number of the HashMap it is declared in (default: one
+    map) - a map is declared right before its first variable, so the
+    declarations of several maps interleave as the numbers do; cfg["dict"]
+    (optional, "first" / "last"): the class also has a Dict (key B, value Q)
+    declared before / after everything else; the program then also has
+    sel 60+k: ht[DK[k]] = packet value, and always looks both keys up.
 
     Two ways of judging.  Variable sets of plain formats ("cell mode"): the
     program writes whole 64-bit cells (a 64-bit packet value, another
@@ -247,15 +280,34 @@ class HashVarCase:
         self.cfg = cfg
         self.be = backend
         self.vars = cfg["vars"]
+        self.maps = hv_maps(cfg)
+        self.dictpos = cfg.get("dict")
+        self.nd = len(DK) if self.dictpos else 0
         self.valmode = any(has_prefix(f) for f, d in self.vars)
         n = len(self.vars)
+        if n > 5 or len(self.maps) != n or (self.nd and self.valmode):
+            raise core.Internal(f"C09: configuration {cfg}")
         if sibling_of is None:
-            M = HashMap()
-            attrs = {"hmap": M}
+            attrs, Ms = {}, {}
+            if self.dictpos:
+                self.Key = type("Key", (Structure,), {"k0": Member("B")})
+                self.Value = type("Value", (Structure,), {"m0": Member("Q")})
+                ht = Dict(key=self.Key, value=self.Value, size=4, lru=False)
+            if self.dictpos == "first":
+                attrs["ht"] = ht
             for j, (f, d) in enumerate(self.vars):
-                attrs[f"v{j}"] = M.globalVar(f, default=d)
-            b = dsl.Builder(attrs, n_in=1, n_out=n, pv_area=HDR)
+                k = self.maps[j]
+                if k not in Ms:
+                    Ms[k] = HashMap()
+                    attrs["hmap" if k == 0 else f"hmap{k}"] = Ms[k]
+                attrs[f"v{j}"] = Ms[k].globalVar(f, default=d)
+            if self.dictpos == "last":
+                attrs["ht"] = ht
+            b = dsl.Builder(attrs, n_in=4 if self.nd else 1,
+                            n_out=n + 2 * self.nd, pv_area=HDR)
         else:
+            if self.dictpos:
+                self.Key, self.Value = sibling_of.Key, sibling_of.Value
             b = SiblingBuilder(sibling_of.b, sibling_of.preamble)
         self.b = b
         e = self.e = b.e
@@ -265,9 +317,12 @@ class HashVarCase:
         b.finish(2)
         e.load()
         self.closed = False
-        self.mapfd = e.__dict__["v0"].fd
+        self.fds = [e.__dict__[f"v{j}"].fd for j in range(n)]
+        self.mapfd = self.fds[0]
+        self.dictfd = e.ht.fd if self.nd else None
         if isinstance(backend, RealBackend):
-            backend.sizes[self.mapfd] = (1, 8)
+            for fd in self.fds + ([self.dictfd] if self.nd else []):
+                backend.sizes[fd] = (1, 8)
         self.keys = None
 
     def copies(self, j, k):
@@ -287,11 +342,31 @@ class HashVarCase:
         for j in range(n):
             for k in range(n):
                 if self.copies(j, k):
-                    with guard(b, 16 + 4 * j + k):
+                    with guard(b, 16 + 5 * j + k):
                         setattr(e, f"v{j}", getattr(e, f"v{k}"))
+        if self.nd:
+            d = e.ht
+            with guard(b, 60):
+                d.key.k0 = e.mB[e.r9 + (b.in_off + 8)]
+                d.value.m0 = e.mQ[e.r9 + b.in_off]
+                d.update(UpdateFlags.ANY)
+        if self.nd:
+            # the first key is put in place before the variables are read
+            # and used afterwards: the Dict keeps its key on the stack
+            e.ht.key.k0 = e.mB[e.r9 + (b.in_off + 16)]
         for j, (f, d) in enumerate(self.vars):
             getattr(e, "m" + f[-1])[e.r9 + (b.out_off + 8 * j)] = \
                 getattr(e, f"v{j}")
+        for k in range(self.nd):
+            d = e.ht
+            o = b.out_off + 8 * (n + 2 * k)
+            if k:
+                d.key.k0 = e.mB[e.r9 + (b.in_off + 16 + 8 * k)]
+            with d.lookup() as (value, Else):
+                e.mQ[e.r9 + (o + 8)] = value.m0
+                e.mB[e.r9 + o] = 1
+            with Else:
+                e.mB[e.r9 + o] = 2
 
     def close(self):
         """EBPF.close(): the program's descriptor goes, the maps stay in use
@@ -299,33 +374,62 @@ class HashVarCase:
         self.e.close()
         self.closed = True
 
+    def mapfds(self):
+        return list(dict.fromkeys(self.fds))
+
+    def snapshot_all(self):
+        """{(descriptor, key): value} of all maps the variables are in"""
+        return {(fd, k): v for fd in self.mapfds()
+                for k, v in self.be.snapshot(fd)}
+
+    def restore_all(self, content):
+        for fd in self.mapfds():
+            self.be.restore(fd, [(k, v) for (f, k), v in content.items()
+                                 if f == fd])
+
     def learn_keys(self):
-        """which map entry belongs to which variable (by probing)"""
-        be = self.be
-        before = dict(be.snapshot(self.mapfd))
+        """which map entry (of which map) belongs to which variable (by
+        probing)"""
+        before = self.snapshot_all()
         if len(before) != len(self.vars):
             return None
         keys = []
         for j, (f, d) in enumerate(self.vars):
             marker = 0x5a if d != 0x5a else 0x33
             setattr(self.e, f"v{j}", marker)
-            now = dict(be.snapshot(self.mapfd))
+            now = self.snapshot_all()
             ch = [k for k in now if now[k] != before.get(k)]
-            if len(ch) != 1 or ch[0] in keys:
+            if len(ch) != 1 or ch[0] in keys or len(now) != len(before):
                 return None
             keys.append(ch[0])
-            be.restore(self.mapfd, list(before.items()))
+            self.restore_all(before)
         self.keys = keys
         return keys
 
     def cells(self):
-        snap = dict(self.be.snapshot(self.mapfd))
-        return tuple(struct.unpack("<Q", snap[k])[0] if k in snap and
-                     len(snap[k]) == 8 else None for k in self.keys)
+        """the variables' cells, then (with a Dict) the values under DK -
+        None: no such entry - and, should there be any, the other entries"""
+        snap = self.snapshot_all()
+        out = [struct.unpack("<Q", snap[k])[0] if k in snap and
+               len(snap[k]) == 8 else None for k in self.keys]
+        if self.nd:
+            cont = dict(self.be.snapshot(self.dictfd))
+            for k in DK:
+                v = cont.pop(bytes([k]), None)
+                out.append(None if v is None else
+                           struct.unpack("<Q", v)[0] if len(v) == 8 else v)
+            if cont:
+                out.append(sorted(cont.items()))
+        return tuple(out)
 
     def set_cells(self, cells):
-        self.be.restore(self.mapfd, [(k, struct.pack("<Q", c))
-                                     for k, c in zip(self.keys, cells)])
+        n = len(self.vars)
+        self.restore_all({k: struct.pack("<Q", c)
+                          for k, c in zip(self.keys, cells[:n])})
+        if self.nd:
+            self.be.restore(self.dictfd, [
+                (bytes([k]), struct.pack("<Q", c))
+                for k, c in zip(DK, cells[n:]) if c is not None])
 
     def ops(self):
         n = len(self.vars)
@@ -350,31 +454,58 @@ class HashVarCase:
             for k in range(n):
                 if self.copies(j, k):
                     out.append(("progcopy", j, k))
+        for k in range(self.nd):
+            for v in hv_values("Q"):
+                out.append(("dpyset", k, v))
+                if not self.closed:
+                    out.append(("dprogset", k, v))
+            out.append(("dpydel", k))
         return out
 
     def _plant(self, pkt, j, v):
         f = "<" + self.vars[j][0][-1] if self.valmode else "<Q"
         struct.pack_into(f, pkt, self.b.in_off, v)
 
+    def _lookup_keys(self, pkt):
+        for k in range(self.nd):
+            pkt[self.b.in_off + 16 + 8 * k] = DK[k]
+
+    def _dkey(self, k):
+        o = self.Key()
+        o.k0 = DK[k]
+        return o
+
     def apply(self, op):
         kind = op[0]
-        if kind == "pyset":
+        if kind in ("pyset", "dpyset", "dpydel"):
             try:
-                setattr(self.e, f"v{op[1]}", op[2])
+                if kind == "pyset":
+                    setattr(self.e, f"v{op[1]}", op[2])
+                elif kind == "dpyset":
+                    o = self.Value()
+                    o.m0 = op[2]
+                    self.e.ht[self._dkey(op[1])] = o
+                else:
+                    del self.e.ht[self._dkey(op[1])]
                 return ("ok",)
             except Exception as ex:
                 if isinstance(ex, simkernel.SimTrap):
                     raise
                 return ("exc", type(ex).__name__)
         pkt = bytearray(self.b.pkt_len)
+        self._lookup_keys(pkt)
         if kind == "progset":
             pkt[SEL] = 1 + op[1]
             self._plant(pkt, op[1], op[2])
         elif kind == "progexpr":
             pkt[SEL] = 8 + op[1]
             self._plant(pkt, op[1], op[2])
+        elif kind == "dprogset":
+            pkt[SEL] = 60
+            struct.pack_into("<Q", pkt, self.b.in_off, op[2])
+            pkt[self.b.in_off + 8] = DK[op[1]]
         else:
-            pkt[SEL] = 16 + 4 * op[1] + op[2]
+            pkt[SEL] = 16 + 5 * op[1] + op[2]
         try:
             ret, out = self.be.run(self.e.file_descriptor, pkt)
         except simkernel.SimTrap as t:
@@ -382,7 +513,8 @@ class HashVarCase:
         return ("ret", ret)
 
     def observe(self):
-        """-> (python reads, program reads as raw bytes)"""
+        """-> (python reads, program reads as raw bytes); with a Dict both
+        are followed by what is found under DK"""
         py = []
         for j, (f, d) in enumerate(self.vars):
             try:
@@ -391,29 +523,51 @@ class HashVarCase:
                 if isinstance(ex, simkernel.SimTrap):
                     raise
                 py.append("exc:" + type(ex).__name__)
+        for k in range(self.nd):
+            try:
+                py.append(self.e.ht[self._dkey(k)].m0)
+            except KeyError:
+                py.append("absent")
+            except Exception as ex:
+                if isinstance(ex, simkernel.SimTrap):
+                    raise
+                py.append("exc:" + type(ex).__name__)
         if self.closed:
             return py, ("closed",)
         pkt = bytearray(self.b.pkt_len)
+        self._lookup_keys(pkt)
         try:
             ret, out = self.be.run(self.e.file_descriptor, pkt)
         except simkernel.SimTrap as t:
             return py, ("trap", str(t))
         prog = [bytes(out[self.b.out_off + 8 * j:self.b.out_off + 8 * j + 8])
-                for j in range(len(self.vars))]
+                for j in range(len(self.vars) + 2 * self.nd)]
         return py, (ret, prog)
 
 
 def hv_expected(vars_, cells, op):
-    """reference, cell mode: independent 64-bit cells
+    """reference, cell mode: independent 64-bit cells (and, behind them,
+    the Dict: one value or None per key of DK)
     -> (expected result, cells)"""
     cells = list(cells)
+    n = len(vars_)
     if op[0] == "pyset":
         cells[op[1]] = op[2] & M64
+        return ("ok",), tuple(cells)
+    if op[0] == "dpyset":
+        cells[n + op[1]] = op[2] & M64
+        return ("ok",), tuple(cells)
+    if op[0] == "dpydel":
+        if cells[n + op[1]] is None:
+            return ("exc", "KeyError"), tuple(cells)
+        cells[n + op[1]] = None
         return ("ok",), tuple(cells)
     if op[0] == "progset":
         cells[op[1]] = op[2] & M64
     elif op[0] == "progexpr":
         cells[op[1]] = (op[2] + 1) & M64
+    elif op[0] == "dprogset":
+        cells[n + op[1]] = op[2] & M64
     else:
         cells[op[1]] = cells[op[2]]
     return ("ret", 2), tuple(cells)
@@ -433,6 +587,26 @@ def hv_expected_val(vars_, vals, op):
     else:
         vals[op[1]] = vals[op[2]]
     return ("ret", 2), tuple(vals)
+
+
+def hv_cfgj(cfg):
+    """a configuration as it is written into a report"""
+    cj = dict(kind="hashvars", vars=[list(v) for v in cfg["vars"]])
+    if cfg.get("maps"):
+        cj["maps"] = list(cfg["maps"])
+    if cfg.get("dict"):
+        cj["dict"] = cfg["dict"]
+    return cj
+
+
+def hv_cfg_of(c):
+    """... and back"""
+    cfg = dict(vars=[tuple(v) for v in c["vars"]])
+    if c.get("maps"):
+        cfg["maps"] = tuple(c["maps"])
+    if c.get("dict"):
+        cfg["dict"] = c["dict"]
+    return cfg
 
 
 def hv_decode(fmt, cell):
@@ -456,10 +630,12 @@ def kf_beget(fmt, exp, ob):
 
 
 def hv_check_observation(vars_, model, obs, valmode=False):
-    """model: the cells (cell mode) or the values (value mode)
+    """model: the cells (cell mode; behind them the Dict's values, if the
+    class has one) or the values (value mode)
     -> list of (what, expected, observed, known-finding id or None)"""
     py, prog = obs
     bad = []
+    n = len(vars_)
     want = [model[j] if valmode else hv_decode(f, model[j])
             for j, (f, d) in enumerate(vars_)]
     for j, (f, d) in enumerate(vars_):
@@ -467,6 +643,11 @@ def hv_check_observation(vars_, model, obs, valmode=False):
             bad.append((f"Python read of v{j} ({f})", want[j], py[j],
                         KF_BEGET if valmode and kf_beget(f, want[j], py[j])
                         else None))
+    dvals = list(model[n:])
+    for k, v in enumerate(dvals):
+        exp = "absent" if v is None else v
+        if py[n + k] != exp:
+            bad.append((f"Python read of ht[{DK[k]}]", exp, py[n + k], None))
     if prog[0] == "closed":
         pass
     elif prog[0] == "trap":
@@ -480,6 +661,13 @@ def hv_check_observation(vars_, model, obs, valmode=False):
             if prog[1][j] != exp:
                 bad.append((f"program read of v{j} ({f})", exp, prog[1][j],
                             None))
+        for k, v in enumerate(dvals):
+            exp = [bytes([2]) + bytes(7), bytes(8)] if v is None else \
+                [bytes([1]) + bytes(7), struct.pack("<Q", v)]
+            got = list(prog[1][n + 2 * k:n + 2 * k + 2])
+            if got != exp:
+                bad.append((f"program lookup of ht[{DK[k]}] (found / Else, "
+                            "value)", exp, got, None))
     return bad
 
 
@@ -487,7 +675,7 @@ def explore_hashvars(cfg, depth, backend_cls, res, sink, shadow=None):
     """BFS; -> list of edge observations (for the differential)"""
     be = backend_cls()
     log = []
-    cj = dict(kind="hashvars", vars=[list(v) for v in cfg["vars"]])
+    cj = hv_cfgj(cfg)
     try:
         with be.context():
             try:
@@ -500,14 +688,26 @@ def explore_hashvars(cfg, depth, backend_cls, res, sink, shadow=None):
             vars_ = case.vars
             valmode = case.valmode
             # ---- defaults after load()
-            init = tuple(d if valmode else d & M64 for f, d in vars_)
+            init = tuple(d if valmode else d & M64 for f, d in vars_) + \
+                (None,) * case.nd
             if case.learn_keys() is None:
-                snap = be.snapshot(case.mapfd)
+                snap = sorted(case.snapshot_all().items())
                 log.append(("nokeys", snap))
                 if sink:
+                    try:
+                        py = case.observe()[0]
+                    except Exception as ex:
+                        if isinstance(ex, simkernel.SimTrap):
+                            raise
+                        py = type(ex).__name__
                     sink(cj, f"{len(vars_)} independent cells",
                          snap, "cells-not-independent",
-                         note="cannot attribute one map entry per variable")
+                         note="cannot attribute one map entry per variable: "
+                         "the maps do not hold one entry for each, or a "
+                         "write to one variable changes none or several "
+                         f"entries; Python reads {py} where the defaults "
+                         f"{[d for f, d in vars_]} were declared (variables "
+                         f"in maps {list(case.maps)})")
                 return log
             got = case.cells()
             log.append(("init", got))
@@ -543,7 +743,8 @@ def explore_hashvars(cfg, depth, backend_cls, res, sink, shadow=None):
                             res.count("transitions")
                             res.count("vm_steps", getattr(be, "steps", 0))
                             res.nontrivial.add(core.digest(
-                                [cj["vars"], st, op]))
+                                [cj["vars"], cj.get("maps"),
+                                 cj.get("dict"), st, op]))
                         if valmode:
                             er, emod = hv_expected_val(vars_, st[1], op)
                             epost = "every variable keeps its 8-byte entry"
@@ -1210,7 +1411,9 @@ class MultiHV:
 
     @staticmethod
     def cfgj(cfg):
-        return dict(vars=[list(v) for v in cfg["vars"]])
+        cj = hv_cfgj(cfg)
+        del cj["kind"]
+        return cj
 
     @staticmethod
     def make(cfg, be, sibling_of=None):
@@ -1461,6 +1664,87 @@ def hashvar_configs(ctx):
     return [dict(vars=v) for v in out]
 
 
+def hashvar_multimap_configs(ctx):
+    """program classes with two and three HashMaps (the variables
+    distributed over them: different numbers per map, declarations of the
+    maps interleaved, defaults, plain formats and formats with their own
+    byte order) and classes with a Dict next to the HashMap(s)"""
+    out = []
+
+    def add(vars_, maps=None, dct=None):
+        cfg = dict(vars=list(vars_))
+        if maps:
+            cfg["maps"] = tuple(maps)
+        if dct:
+            cfg["dict"] = dct
+        out.append(cfg)
+    H = HFMT
+    # ---- two maps, one variable each: every ordered pair of formats
+    for i, f in enumerate(H):
+        for j, g in enumerate(H):
+            if ctx.quick and (i + 2 * j) % 3:
+                continue
+            add([(f, DEFAULTS[(i + j) % 2]), (g, DEFAULTS[(i + j + 1) % 2])],
+                (0, 1))
+    add([("q", -1), ("i", -1)], (0, 1))
+    # ---- two maps, 1 + 2, 2 + 1, interleaved, 2 + 2, 3 + 1, 1 + 3, 3 + 2
+    shapes = [(0, 1, 1), (0, 0, 1), (0, 1, 0), (0, 0, 1, 1), (0, 1, 0, 1),
+              (0, 0, 0, 1), (0, 1, 1, 1), (0, 1, 1, 0)]
+    if not ctx.quick:
+        shapes += [(0, 0, 1, 1, 1), (0, 1, 0, 1, 0), (0, 0, 0, 1, 1)]
+    for n, maps in enumerate(shapes):
+        for r in range(1 if ctx.quick else 3):
+            add([(H[(n + 2 * r + 3 * j) % 6], DEFAULTS[(n + r + j) % 2] if j
+                  else 5) for j in range(len(maps))], maps)
+    # the program of the library's documentation: settings and counters
+    add([("I", 3), ("h", -20), ("Q", 1000), ("I", 0)], (0, 0, 1, 1))
+    # ---- three maps
+    shapes = [(0, 1, 2), (0, 1, 2, 0), (0, 1, 1, 2)]
+    if not ctx.quick:
+        shapes += [(0, 1, 2, 2, 1), (0, 0, 1, 2, 2), (0, 1, 2, 1, 0),
+                   (0, 1, 0, 2)]
+    for n, maps in enumerate(shapes):
+        for r in range(1 if ctx.quick else 3):
+            add([(H[(2 * n + r + 5 * j) % 6], DEFAULTS[(n + r + j + 1) % 2]
+                  if j != 1 else 5) for j in range(len(maps))], maps)
+    add([("q", -1), ("h", -1), ("i", -1)], (0, 1, 2))
+    # ---- formats with their own byte order (value mode)
+    X = XHFMT
+    add([(">H", 5), (">H", 0)], (0, 1))
+    add([(">I", 0), ("I", 5), (">I", 5)], (0, 1, 1))
+    add([("!h", -1), ("<h", 0), ("!h", 5)], (0, 1, 2))
+    add([(">q", 5), ("Q", 0), (">q", 0), ("Q", 5)], (0, 0, 1, 1))
+    if not ctx.quick:
+        for i, f in enumerate(X):
+            add([(f, 5), (f, 0)], (0, 1))
+            add([(f, 0), (H[i % 6], 5), (f, 5)], (0, 1, (i % 2) * 2))
+    # ---- a Dict in the same class
+    for i, pos in enumerate(("first", "last")):
+        add([("I", 5)], None, pos)
+        add([("q", -1), ("B", 0)], (0, 1), pos)
+        add([(H[i], 0), (H[i + 2], 5)], None, pos)
+        if not ctx.quick:
+            add([("Q", 5), ("h", 0), ("i", 5)], (0, 1, 0), pos)
+            add([("B", 5), ("Q", 0), ("I", 5)], (0, 1, 2), pos)
+            for f in H:
+                add([(f, 5)], None, pos)
+    if ctx.seed:
+        import random
+        rnd = random.Random(1000 + ctx.seed)
+        for _ in range(4):
+            n = rnd.randint(2, 4)
+            maps = [0] + [rnd.randint(0, 2) for _ in range(n - 1)]
+            if len(set(maps)) == 1:
+                maps[-1] = 1
+            # number the maps in the order of their first variable
+            order = list(dict.fromkeys(maps))
+            add([(rnd.choice(H), rnd.choice([0, 5])) for _ in range(n)],
+                [order.index(m) for m in maps])
+        add([(rnd.choice(H), 5), (rnd.choice(H), 0)], (0, 1),
+            rnd.choice(["first", "last"]))
+    return out
+
+
 # Dict declarations whose members carry their own byte order
 XDICTS = [
     ((">H",), (">q",)), ((">I", "<H", "B"), ("!h", ">I")),
@@ -1494,6 +1778,12 @@ def multi_configs(ctx):
     for plan in PLANS:
         out += [("dict", c, plan) for c in dicts]
         out += [("hashvars", dict(vars=v), plan) for v in hvs]
+        # instances of a class with several HashMaps
+        out.append(("hashvars", dict(vars=[("i", -1), ("B", 5)],
+                                     maps=(0, 1)), plan))
+        if not ctx.quick:
+            out.append(("hashvars", dict(vars=[("Q", 5), ("h", 0), ("I", 5)],
+                                         maps=(0, 1, 0)), plan))
     return out
 
 
@@ -1613,6 +1903,12 @@ def run(ctx):
     dc = dict_configs(ctx)
     for i, cfg in enumerate(hv):
         items.append(("hv", cfg, depth, i % 3 == 0))
+    hm = hashvar_multimap_configs(ctx)
+    for i, cfg in enumerate(hm):
+        # (the searches branch by the number of variables: one level less
+        # from four variables on and next to a Dict)
+        big = len(cfg["vars"]) + (1 if cfg.get("dict") else 0) > 3
+        items.append(("hv", cfg, depth - 1 if big else depth, i % 3 == 0))
     for i, cfg in enumerate(dc):
         # (a real LRU map of two entries evicts before it is full, and not
         # reproducibly: no edge-by-edge comparison there)
@@ -1629,6 +1925,7 @@ def run(ctx):
     res.cov["configurations_run"] = res.cov.pop("evaluations", 0)
     res.cov["evaluations"] = res.cov.get("transitions", 0)
     res.cov["configurations"] = dict(hashvars=len(hv), dicts=len(dc),
+                                     hashvars_several_maps=len(hm),
                                      several_instances=len(mc_))
     res.cov["bound_completed"] = depth
     res.cov["bound_several_instances"] = mdepth
@@ -1641,6 +1938,19 @@ def run(ctx):
         "cell; values written from Python fit the variable's format; the "
         "program writes whole 64-bit cells (a 64-bit packet value, or "
         "another variable's cell)",
+        "hash-map variables declared in different HashMap objects of one "
+        "program class are independent cells like those of one map (the "
+        "statement's 'each hash-map variable'): the state of the search is "
+        "the tuple of all their cells, found by probing in whatever kernel "
+        "maps the library put them; whether two HashMap objects are two "
+        "kernel maps is not judged.  A class that the library refuses to "
+        "load is counted as rejected.  Searches with four or five variables "
+        "or a Dict run one level less deep",
+        "a Dict next to HashMaps: the Dict's entries under the keys 1 and 2 "
+        "(None = no entry) are part of the state, any further entry is a "
+        "difference; the Dict keeps its key on the stack, so the program "
+        "puts the first key in place before it reads the hash-map "
+        "variables and looks it up afterwards",
         "a default that struct cannot pack for the variable's signedness "
         "(-1 for an unsigned format) makes load() fail: counted as rejected "
         "by the generator",
@@ -1688,11 +1998,11 @@ def replay(ctx, rep):
             cfg = dict(key=tuple(c["key"]), value=tuple(c["value"]),
                        size=c["size"], lru=c["lru"])
         else:
-            cfg = dict(vars=[tuple(v) for v in c["vars"]])
+            cfg = hv_cfg_of(c)
         log = explore_multi(c["what"], cfg, c["plan"],
                             2 if ctx.quick else 3, SimBackend, res, sink)
     elif c["kind"] == "hashvars":
-        cfg = dict(vars=[tuple(v) for v in c["vars"]])
+        cfg = hv_cfg_of(c)
         log = explore_hashvars(cfg, depth, SimBackend, res, sink)
     else:
         cfg = dict(key=tuple(c["key"]), value=tuple(c["value"]),
